@@ -371,10 +371,111 @@ def _expand_expr_helpers(trees, keep):
     return sorted(done)
 
 
+def _tail_lists(fn):
+    """Statement lists of fn whose last statement is in tail position (nothing of fn runs after it)."""
+    out = []
+
+    def rec(stmts):
+        if not stmts:
+            return
+        out.append(stmts)
+        last = stmts[-1]
+        if isinstance(last, ast.If):
+            rec(last.body)
+            rec(last.orelse)
+        elif isinstance(last, ast.With):
+            rec(last.body)
+    rec(fn.body)
+    return out
+
+
+def _expand_raise_predicates(trees, keep):
+    """`if [A and] self._pred(x): raise E` as the last thing a function does, where `_pred` is a private predicate
+    helper (returns True/False/a condition):  the helper's body is put in its place with `return True` -> `raise E`,
+    `return False` -> `return`, `return <cond>` -> `if <cond>: raise E; return`.  Equivalent because nothing follows
+    the statement in the caller.  The definition is removed when no other mention of the helper remains."""
+    defs = {}
+    for mod, tree in trees.items():
+        for st in tree.body:
+            if isinstance(st, ast.FunctionDef):
+                defs.setdefault(st.name, []).append(_Helper(st, None, mod))
+            elif isinstance(st, ast.ClassDef):
+                for m in st.body:
+                    if isinstance(m, ast.FunctionDef):
+                        defs.setdefault(m.name, []).append(_Helper(m, st, mod))
+    cands = {nm: hs[0] for nm, hs in defs.items()
+             if len(hs) == 1 and _is_private(nm) and nm not in keep and _eligible_def(hs[0].node)
+             and _has_return(hs[0].node.body)}
+    done = set()
+    for tree in trees.values():
+        for fn in [n for n in ast.walk(tree) if isinstance(n, ast.FunctionDef)]:
+            if fn.name in cands:
+                continue
+            for stmts in _tail_lists(fn):
+                last = stmts[-1]
+                if not (isinstance(last, ast.If) and not last.orelse and len(last.body) == 1 and isinstance(last.body[0], ast.Raise)):
+                    continue
+                test = last.test
+                pre_test = None
+                call = test
+                if isinstance(test, ast.BoolOp) and isinstance(test.op, ast.And):
+                    call = test.values[-1]
+                    rest = test.values[:-1]
+                    pre_test = rest[0] if len(rest) == 1 else ast.BoolOp(op=ast.And(), values=rest)
+                if not (isinstance(call, ast.Call) and _call_name(call) in cands):
+                    continue
+                h = cands[_call_name(call)]
+                fake = ast.copy_location(ast.Return(value=call), last)
+                body = _instantiate(h, call, 'return', fake)
+                if body is None:
+                    continue
+                raise_st = last.body[0]
+
+                class RT(ast.NodeTransformer):
+                    def visit_Return(self, r):
+                        v = r.value
+                        if v is None or (isinstance(v, ast.Constant) and not v.value):
+                            return ast.copy_location(ast.Return(value=None), r)
+                        if isinstance(v, ast.Constant) and v.value:
+                            return ast.copy_location(copy.deepcopy(raise_st), r)
+                        return [ast.copy_location(ast.If(test=v, body=[copy.deepcopy(raise_st)], orelse=[]), r),
+                                ast.copy_location(ast.Return(value=None), r)]
+
+                    def visit_FunctionDef(self, n):
+                        return n
+                new = []
+                for st in body:
+                    r = RT().visit(st)
+                    new.extend(r if isinstance(r, list) else [r])
+                if pre_test is not None:
+                    new = [ast.copy_location(ast.If(test=pre_test, body=new or [ast.Pass()], orelse=[]), last)]
+                stmts[-1:] = new
+                done.add(_call_name(call))
+    removed = []
+    for nm in sorted(done):
+        left = 0
+        for tree in trees.values():
+            for n in ast.walk(tree):
+                if (isinstance(n, ast.Attribute) and n.attr == nm) or (isinstance(n, ast.Name) and n.id == nm):
+                    left += 1
+        if left == 0:
+            for tree in trees.values():
+                tree.body = [st for st in tree.body if not (isinstance(st, ast.FunctionDef) and st.name == nm)]
+                for st in tree.body:
+                    if isinstance(st, ast.ClassDef):
+                        st.body = [m for m in st.body if not (isinstance(m, ast.FunctionDef) and m.name == nm)] or [ast.Pass()]
+            removed.append(nm)
+    for tree in trees.values():
+        ast.fix_missing_locations(tree)
+    return removed, sorted(done)
+
+
 def expand(trees, keep=frozenset()):
     """trees: {module name: ast.Module}, modified in place.  Returns the sorted list of
     helpers that were inlined (and whose definitions were removed)."""
     inlined = list(_expand_expr_helpers(trees, keep))
+    removed, used = _expand_raise_predicates(trees, keep)
+    inlined.extend(x for x in used if x not in inlined)
     for _ in range(MAXROUNDS):
         # definitions by simple name
         defs = {}
